@@ -77,6 +77,18 @@ CHECKS += [
          technique='static analysis: role agreement of wave writer/reader, to_file dispatch, save() placeholder provenance and exists_ok test-before-write on every path, skip/max_read conversion formulas and read order, nullness of the loaded data',
          text='Decides writer/reader role agreement, format dispatch, placeholder sources, overwrite refusal before writing, round(skip*rate)/round(max_read*rate) and that no None reaches AudioRegion. Round-trip equality as a value is not computed.',
          note=STRUCT_NOTE),
+ ]
+WORK_NOTE = ("Decides protocol facts of the worker design from the source (message abstracted to NONE/STOP/DATA, path enumeration, effect order); the step from the facts to the property is an argument "
+             "relying on queue.Queue (unbounded FIFO, thread-safe, put never blocks) and Thread.join semantics. Interleavings and crash points are NOT enumerated.")
+CHECKS += [
+    dict(id='C12', engine='E3-fd traces', level='other', design_ref='DESIGN.md 4.12, B.6',
+         technique='static analysis: finite-domain path enumeration of the worker loops (message in {NONE, STOP, DATA}), inbox discipline census, call-order rules, class-table exhaustiveness',
+         text='Decides the ten protocol facts F1-F10 (unbounded own inbox, timeout on every blocking get, loop cases, notify-all once per detection then STOP, stop=send then join, no self-join, every worker has the hook). Schedules are not explored.',
+         note=WORK_NOTE),
+    dict(id='C19', engine='E4-provenance + E6-effects', level='other', design_ref='DESIGN.md 4.19',
+         technique='static analysis: provenance of the recorder cache/rewind paths, reset-completeness of wrapper state (fields written on the read path vs re-initialised by rewind), attribute-hiding guards',
+         text='Decides cache-once, the first/later rewind paths, data-before-rewind guard, reset-completeness and inward propagation of rewind in every wrapper, and that non-recording readers hide data/rewind. Replay equality over histories is argued, not computed.',
+         note=STRUCT_NOTE),
 ]
 _PENDING = 'check not built yet in this session (planned in DESIGN.md section 4); not claimed until its checker exists'
 _DONE = {c['id'] for c in CHECKS}
